@@ -64,6 +64,22 @@ theorem order_independent_stack2 (magic : D → Nat) (ours ours' proposed propos
     (negotiate2 magic ours proposed).sim (negotiate2 magic ours' proposed') :=
   negotiate2_perm magic ours ours' proposed proposed' ho hp hno hnp
 
+/-- the other two answers are sound as well (so the three theorems characterise each responder): a
+    `Refused(v)` is about the highest common version, whose data (stack 1) / magics (stack 2) differ, and a
+    version mismatch is sent only for disjoint tables -/
+theorem refusals_sound_stack1 [DecidableEq D] (ours theirs : Table D) :
+    (∀ v, negotiate1 ours theirs = .refused v →
+      (∃ d d', (v, d) ∈ ours ∧ (v, d') ∈ theirs ∧ d ≠ d') ∧ ∀ w, w ∈ keys ours → w ∈ keys theirs → w ≤ v) ∧
+    (∀ vs, negotiate1 ours theirs = .versionMismatch vs → ∀ w ∈ keys ours, w ∉ keys theirs) :=
+  ⟨fun v h => refused_sound1 ours theirs v h, fun vs h => mismatch_only_if_disjoint1 ours theirs vs h⟩
+
+theorem refusals_sound_stack2 (magic : D → Nat) (ours proposed : Table D) :
+    (∀ v, negotiate2 magic ours proposed = .refused v →
+      (∃ d pd, (v, d) ∈ ours ∧ (v, pd) ∈ proposed ∧ magic pd ≠ magic d) ∧
+        ∀ w, w ∈ keys ours → w ∈ keys proposed → w ≤ v) ∧
+    (∀ vs, negotiate2 magic ours proposed = .versionMismatch vs → ∀ w ∈ keys ours, w ∉ keys proposed) :=
+  ⟨fun v h => refused_sound2 magic ours proposed v h, fun vs h => mismatch_only_if_disjoint2 magic ours proposed vs h⟩
+
 theorem stack2_never_panics (magic : D → Nat) (ours proposed : Table D) : negotiate2 magic ours proposed ≠ .panic :=
   negotiate2_no_panic magic ours proposed
 
